@@ -191,8 +191,13 @@ func fnGetRange(ctx *cmdContext, args map[string]any) (output respValue, err err
 	if valid == VALUE_WRONG_TYPE {
 		output.data = wrongTypeError
 	} else if valid == VALUE_EXISTS {
-		// convert negative indexes to positive
 		n := len(str)
+		if start < 0 && end < 0 && start > end {
+			output.data = respBulkString("")
+			return
+		}
+
+		// convert negative indexes to positive
 		if start < 0 {
 			start = n + start
 		}
@@ -200,17 +205,20 @@ func fnGetRange(ctx *cmdContext, args map[string]any) (output respValue, err err
 			end = n + end
 		}
 
-		// enforce boundaries
+		// enforce boundaries (as redis does: both ends clamp to the first byte)
 		if start < 0 {
 			start = 0
-		} else if start > n {
-			start = n
+		}
+		if end < 0 {
+			end = 0
+		}
+		if end >= n {
+			end = n - 1
 		}
 
-		if end < start {
-			end = start - 1
-		} else if end >= n {
-			end = n - 1
+		if start > end || n == 0 {
+			output.data = respBulkString("")
+			return
 		}
 
 		output.data = respBulkString(str[start : end+1])
